@@ -63,10 +63,15 @@ impl<'a> SimdOp for MaxNum<'a, f32> {
     fn eval<I: Isa>(self, isa: I) -> Self::Output {
         let ops = isa.f32();
 
+        // The result of `ops.max` when an operand is NaN depends on the ISA,
+        // so NaNs in either the accumulator or the new values are handled
+        // explicitly.
         let max_num = |max, x| {
-            let not_nan = ops.eq(x, x);
+            let x_not_nan = ops.eq(x, x);
+            let max_not_nan = ops.eq(max, max);
             let new_max = ops.max(max, x);
-            ops.select(new_max, x, not_nan)
+            let new_max = ops.select(new_max, x, x_not_nan);
+            ops.select(new_max, max, max_not_nan)
         };
 
         let vec_max = self.input.simd_iter(ops).fold_unroll::<2>(
@@ -113,10 +118,15 @@ impl<'a> SimdOp for MinNum<'a, f32> {
     fn eval<I: Isa>(self, isa: I) -> Self::Output {
         let ops = isa.f32();
 
+        // The result of `ops.min` when an operand is NaN depends on the ISA,
+        // so NaNs in either the accumulator or the new values are handled
+        // explicitly.
         let min_num = |min, x| {
-            let not_nan = ops.eq(x, x);
+            let x_not_nan = ops.eq(x, x);
+            let min_not_nan = ops.eq(min, min);
             let new_min = ops.min(min, x);
-            ops.select(new_min, x, not_nan)
+            let new_min = ops.select(new_min, x, x_not_nan);
+            ops.select(new_min, min, min_not_nan)
         };
 
         let vec_min = self
@@ -186,6 +196,20 @@ mod tests {
         let xs = [0.1, 1.0, 0.2, f32::NAN, 0.4, 0.5, 0.6];
         let min = MinNum::new(&xs).dispatch();
         assert!(min.is_nan());
+    }
+
+    // A NaN must be propagated regardless of its position in the input and
+    // the values which follow it.
+    #[test]
+    fn test_min_max_num_nan_position() {
+        for len in [1, 7, 16, 33, LEN] {
+            for nan_pos in 0..len {
+                let mut xs: Vec<f32> = (0..len).map(|i| i as f32 * 0.1).collect();
+                xs[nan_pos] = f32::NAN;
+                assert!(MaxNum::new(&xs).dispatch().is_nan());
+                assert!(MinNum::new(&xs).dispatch().is_nan());
+            }
+        }
     }
 
     // For an empty slice, min and max return their identity values on the
